@@ -271,12 +271,51 @@ def tsan_summary(err):
     return out
 
 
-def run(ctx):
+class _S(object):
+    """State shared by the stages of one run (defaults = what a failed stage leaves behind)."""
+    def __init__(self):
+        self.rows, self.iface, self.expected, self.table, self.lock_findings = [], [], [], [], []
+        self.tb_unlocked, self.tv_unlocked, self.conflicts = [], [], []
+        self.model = None
+        self.exe = {}            # (sanitizer, part) -> harness exe; part in "buf", "val"
+        self.inv_dir = None
+        self.results = []
+        self.big = 0
+
+
+def _first_error(text):
+    for ln in (text or "").splitlines():
+        if re.search(r"\berror\b|Error", ln):
+            return ln.strip()[:300]
+    return (text or "").strip().splitlines()[-1][:300] if (text or "").strip() else ""
+
+
+def _stage(ctx, name, fn, *a):
+    """Run one stage; an exception is recorded (stage name + message) and the run continues."""
+    try:
+        return fn(ctx, *a)
+    except Exception as ex:                                            # noqa: BLE001
+        import traceback
+        fr = traceback.extract_tb(ex.__traceback__)[-1]
+        ctx.broken.append("stage %s raised %s: %s (%s:%d in %s)" % (name, type(ex).__name__, str(ex)[:200], os.path.basename(fr.filename), fr.lineno, fr.name))
+        ctx.log("stage %s raised %r - continuing with the remaining stages" % (name, ex))
+        return None
+
+
+def _time_left(ctx):
+    return ctx.deadline - time.time()
+
+
+def stage_table(ctx, S):
     # ------------------------------------------------------------- (1) lock table from the source
     gen_v = os.path.join(ctx.coqdir, "gen", "Locks.v")
     # primary extractor: clang JSON AST (props/C12/lockgen_ast.py); the textual extractor (lockgen.py) is the cross-check
     key = lambda r: (r["cls"], r["method"], r["line"], r["field"], bool(r["write"]), bool(r["atomic"]), r["lock"])
-    rows_txt, info = lockgen.analyse(ctx.repo)
+    try:
+        rows_txt, info = lockgen.analyse(ctx.repo)
+    except Exception as ex:                                            # noqa: BLE001
+        rows_txt, info = [], {"files": []}
+        ctx.broken.append("textual lock-table extractor (lockgen.py) raised %r" % (ex,))
     try:
         rows, info_ast = lockgen_ast.analyse(ctx.repo, os.path.join(ctx.build, "ast"))
     except Exception as ex:                                            # noqa: BLE001
@@ -345,7 +384,14 @@ def run(ctx):
         lock_findings.append("TransactionalValue operator=/update touches a member outside the mutex other than an atomic read (model granularity): " + fmt(r))
     ctx.cov["lockset_python"] = {"lockset_ok": py_lockset_ok, "granularity_ok": py_gran_ok, "findings": lock_findings}
 
-    # ------------------------------------------------------------------------------- (2) Coq
+    S.rows, S.iface, S.expected, S.table, S.lock_findings = rows, iface, expected, table, lock_findings
+    S.tb_unlocked, S.tv_unlocked, S.conflicts = tb_unlocked, tv_unlocked, conflicts
+    S.py_ok = (py_lockset_ok, py_gran_ok)
+
+
+def stage_coq(ctx, S):
+    rows, iface, expected, lock_findings = S.rows, S.iface, S.expected, S.lock_findings
+    py_lockset_ok, py_gran_ok = getattr(S, "py_ok", (False, False))
     res = ctx.coq_check(PROP_FILES)
     coq_lock_ok = all(res.get(n) for n in ("lockset_race_free", "tbuf_methods_atomic", "tval_granularity", "interface_closed"))
     py_iface_ok = iface == expected
@@ -357,23 +403,58 @@ def run(ctx):
                                                                         "ok" if py_gran_ok else "VIOLATED", "closed" if py_iface_ok else "CHANGED",
                                                                         "".join("\n    " + f for f in lock_findings)))
 
-    # ------------------------------------------------------------------ (3) executables
-    model = ctx.extract(snippets=["conv_N.ml", "conv_nat.ml"])
-    exes = ctx.cxx_many([dict(sources=["harness.cpp"], out="harness_asan", sanitize="asan"),
-                         dict(sources=["harness.cpp"], out="harness_tsan", sanitize="tsan")])
-    h_asan, h_tsan = exes
-    if not model or not h_asan or not h_tsan:
-        if lock_findings:
-            ctx.violation("lock discipline of the documented usage is broken (and the harness did not build)",
-                          {"findings": lock_findings, "lock_table": table}, found_input=False)
-        return
 
-    ctx.log("model and harnesses built")
-    inv_dir = os.path.join(ctx.build, "inv")
-    shutil.rmtree(inv_dir, ignore_errors=True)
-    os.makedirs(inv_dir)
-    os.environ["C12_INV_DIR"] = inv_dir
-    # ------------------------------------------------------ (4) sequential differential
+
+def stage_build(ctx, S):
+    """Model and harnesses, each on its own: a failed build is recorded and the others are used."""
+    mv, mvo = os.path.join(ctx.coqdir, "Model.v"), os.path.join(ctx.coqdir, "Model.vo")
+    if not os.path.exists(mvo) or os.path.getmtime(mvo) < os.path.getmtime(mv):
+        # Model.v did not build in this run: a left-over Model.vo must not be extracted as if it were the current model
+        ctx.broken.append("coq/C12/Model.v does not build: %s - no model in this run" % _first_error(getattr(ctx, "coq_log", "")))
+    else:
+        try:
+            S.model = ctx.extract(snippets=["conv_N.ml", "conv_nat.ml"])
+        except Exception as ex:                                        # noqa: BLE001
+            ctx.broken.append("model extraction raised %r" % (ex,))
+    if not S.model:
+        ctx.log("no extracted model: the harness runs are judged by the independent oracles only")
+    jobs = [dict(sources=["harness.cpp"], out="harness_asan", sanitize="asan"), dict(sources=["harness.cpp"], out="harness_tsan", sanitize="tsan")]
+    nb = len(ctx.broken)
+    exes = ctx.cxx_many(jobs)
+    for san, exe in zip(("asan", "tsan"), exes):
+        if exe:
+            S.exe[(san, "buf")] = S.exe[(san, "val")] = exe
+    missing = [san for san, exe in zip(("asan", "tsan"), exes) if not exe]
+    if missing:
+        # the full harness does not compile against this tree: one class at a time
+        fb = [dict(sources=["harness.cpp"], out="harness_%s_%s" % (san, part), sanitize=san, flags=[flag])
+              for san in missing for part, flag in (("buf", "-DC12_ONLY_BUFFER"), ("val", "-DC12_ONLY_VALUE"))]
+        fexes = ctx.cxx_many(fb)
+        for kw, exe in zip(fb, fexes):
+            san, part = kw["out"].split("_")[1:3]
+            if exe:
+                S.exe[(san, part)] = exe
+                ctx.log("fallback harness built: %s (%s only)" % (kw["out"], part))
+        # keep one entry per failed build in ctx.broken, worded with the class that no longer compiles
+        del ctx.broken[nb:]
+        for san in missing:
+            parts = [p_ for p_ in ("buf", "val") if (san, p_) in S.exe]
+            ctx.broken.append("harness build (%s) failed against this tree: the public interface used by the harness changed; fallback builds available: %s"
+                              % (san, ", ".join(parts) or "none"))
+    # any sanitizer will do for a part that one sanitizer build lacks
+    for part in ("buf", "val"):
+        have = [san for san in ("asan", "tsan") if (san, part) in S.exe]
+        for san in ("asan", "tsan"):
+            if (san, part) not in S.exe and have:
+                S.exe[(san, part)] = S.exe[(have[0], part)]
+    S.inv_dir = os.path.join(ctx.build, "inv")
+    shutil.rmtree(S.inv_dir, ignore_errors=True)
+    os.makedirs(S.inv_dir)
+    os.environ["C12_INV_DIR"] = S.inv_dir
+    ctx.log("built: model %s, harnesses %s" % ("yes" if S.model else "NO", sorted("%s/%s" % k for k in S.exe) or "NONE"))
+
+
+def stage_seq(ctx, S):
     r = ctx.rng("seq")
     base = []
     for i in range(ctx.pick(1500, 15000)):
@@ -389,61 +470,87 @@ def run(ctx):
     exh = list(exhaustive(ctx.pick(5, 6)))
     base += exh
     cases = ["%s %s %s %s" % (k, kind, a, " ".join(ops)) for (k, a, ops) in base for kind in (KINDS if k == "B" else KINDS + ["het"])]
-    mism, crashes, mlines = vlib.differential(ctx, cases, model, [("seq/asan", h_asan, ["seq"])])
-    ctx.count(len(cases))
+    ctx.cov["seq_case_mix"] = {"random": len(base) - len(exh), "exhaustive_short": len(exh), "payload_kinds": KINDS + ["het"]}
     hist = {}
-    for c, ml in zip(cases, mlines):
-        t = c.split()
-        for op in t[3:]:
-            key = t[0] + ":" + op[0]
-            hist[key] = hist.get(key, 0) + 1
-        outs = ml.split(" ; ")
-        if t[0] == "B":
-            nb = [o for o in outs if o.startswith("[") and o != "[]"]
-            if len(nb) >= 2 or any(" " in o for o in nb):
-                ctx.nontriv("seq " + " ".join(t[:1] + t[2:]))
-        elif "true" in outs and "false" in outs:
-            ctx.nontriv("seq " + " ".join(t[:1] + t[2:]))
-    ctx.cov["seq_op_histogram"] = hist
-    ctx.cov["seq_case_mix"] = {"random": len(base) - len(exh), "exhaustive_short": len(exh), "payload_kinds": KINDS}
-    for c in cases[:2] + cases[-1:]:
-        ctx.sample({"seq_case": c, "model_and_impl": mlines[cases.index(c)][:200] if mlines else None})
-    for label, (rc, err, n) in crashes.items():
-        ctx.violation("harness %s crashed (rc=%d) - sanitizer report / abort on the real code" % (label, rc),
-                      {"label": label, "stderr_tail": err, "case": cases[n] if n < len(cases) else None,
-                       "required": "no crash, no sanitizer report"}, found_input=n < len(cases))
-    reported = False
-    for (i, label, il, ml) in mism[:30]:
-        if label in crashes or reported:
+    total_mism = 0
+    for part, tag in (("buf", "B"), ("val", "V")):
+        exe = S.exe.get(("asan", part))
+        pc = [c for c in cases if c[0] == tag]
+        if not exe:
+            ctx.broken.append("sequential differential skipped for %s cases: no harness build" % tag)
             continue
-        t = cases[i].split()
-        head, ops = t[:3], t[3:]
+        tmo = max(30, min(ctx.pick(300, 900), _time_left(ctx)))
+        mlines = None
+        if S.model:
+            mism, crashes, mlines = vlib.differential(ctx, pc, S.model, [("seq/" + part, exe, ["seq"])], timeout=tmo)
+            if len(mlines) != len(pc):
+                mlines = None                                          # model driver failed (recorded by differential): oracle only
+        if mlines is None:
+            rc, ilines, ierr = vlib.run_lines(ctx, exe, ["seq"], pc, timeout=tmo)
+            crashes = {"seq/" + part: (rc, ierr[-3000:], len(ilines))} if rc != 0 else {}
+            mism = []
+            for i, c in enumerate(pc):
+                il = ilines[i] if i < len(ilines) else "<no output: harness died>"
+                if il != oracle_seq(c):
+                    mism.append((i, "seq/" + part, il, None))
+                    if len(mism) >= 30:
+                        break
+        ctx.count(len(pc))
+        total_mism += len(mism)
+        ref = mlines if mlines is not None else [oracle_seq(c) if c.split()[3:] and len(c) < 400 else "" for c in pc]
+        for c, ml in zip(pc, ref):
+            t = c.split()
+            for op in t[3:]:
+                key = t[0] + ":" + op[0]
+                hist[key] = hist.get(key, 0) + 1
+            outs = ml.split(" ; ")
+            if t[0] == "B":
+                nb = [o for o in outs if o.startswith("[") and o != "[]"]
+                if len(nb) >= 2 or any(" " in o for o in nb):
+                    ctx.nontriv("seq " + " ".join(t[:1] + t[2:]))
+            elif "true" in outs and "false" in outs:
+                ctx.nontriv("seq " + " ".join(t[:1] + t[2:]))
+        for c in pc[:1]:
+            ctx.sample({"seq_case": c, "model_and_impl": ref[0][:200] if ref else None, "judged_by": "extracted model" if mlines is not None else "python oracle"})
+        for label, (rc, err, n) in crashes.items():
+            ctx.violation("harness %s crashed (rc=%d) - sanitizer report / abort on the real code" % (label, rc),
+                          {"label": label, "stderr_tail": err, "case": pc[n] if n < len(pc) else None,
+                           "required": "no crash, no sanitizer report"}, found_input=n < len(pc))
+        reported = False
+        for (i, label, il, ml) in mism[:30]:
+            if label in crashes or reported:
+                continue
+            t = pc[i].split()
+            head, ops = t[:3], t[3:]
 
-        def fails(o, head=head):
-            line = " ".join(head + list(o))
-            rc, out, err = ctx.run_exe(h_asan, ["seq"], stdin=line + "\n")
-            return out.strip("\n") != oracle_seq(line)
+            def fails(o, head=head, exe=exe):
+                line = " ".join(head + list(o))
+                rc, out, err = ctx.run_exe(exe, ["seq"], stdin=line + "\n", timeout=60)
+                return out.strip("\n") != oracle_seq(line)
 
-        if il != oracle_seq(cases[i]):
-            small = vlib.shrink_list(ops, fails)
-            line = " ".join(head + small)
-            rc, out, err = ctx.run_exe(h_asan, ["seq"], stdin=line + "\n")
-            ctx.violation("single-threaded history: the real %s disagrees with the sequential specification"
-                          % ("TransactionalBuffer" if t[0] == "B" else "TransactionalValue"),
-                          {"case": line, "format": "B <payload> <nprod> ops (p<i>/m<i> push by producer i, c consume, s size, e empty) | "
-                                                   "V <payload> <initial> ops (a<v> assign, A<n>:<s> n assignments, w<v> write through ref(), u update, g get, r ref; payload het = TransactionalValue<std::string> fed const char*)",
-                           "observed": out.strip(), "required": oracle_seq(line), "model": ml if small == ops else None,
-                           "original_case": cases[i]})
-            reported = True
-        else:
-            ctx.broken.append("correspondence C12 model vs real code on sequential case %r: impl=%r model=%r (impl satisfies the reference)"
-                              % (cases[i], il[:160], ml[:160]))
-            reported = True
-    ctx.cov["seq_mismatches"] = len(mism)
-    ctx.log("sequential differential done: %d cases, %d mismatches" % (len(cases), len(mism)))
+            if il != oracle_seq(pc[i]):
+                small = vlib.shrink_list(ops, fails, max_rounds=120) if _time_left(ctx) > 30 else ops
+                line = " ".join(head + small)
+                rc, out, err = ctx.run_exe(exe, ["seq"], stdin=line + "\n", timeout=60)
+                ctx.violation("single-threaded history: the real %s disagrees with the sequential specification"
+                              % ("TransactionalBuffer" if t[0] == "B" else "TransactionalValue"),
+                              {"case": line, "format": "B <payload> <nprod> ops (p<i>/m<i> push by producer i, c consume, s size, e empty) | "
+                                                       "V <payload> <initial> ops (a<v> assign, A<n>:<s> n assignments, w<v> write through ref(), u update, g get, r ref; payload het = TransactionalValue<std::string> fed const char*)",
+                               "observed": out.strip(), "required": oracle_seq(line), "model": ml if small == ops else None,
+                               "judged_by": "extracted model + python oracle" if ml is not None else "python oracle (no model in this run)",
+                               "original_case": pc[i]})
+                reported = True
+            else:
+                ctx.broken.append("correspondence C12 model vs real code on sequential case %r: impl=%r model=%r (impl satisfies the reference)"
+                                  % (pc[i], il[:160], (ml or "")[:160]))
+                reported = True
+    ctx.cov["seq_op_histogram"] = hist
+    ctx.cov["seq_mismatches"] = total_mism
+    ctx.log("sequential differential done: %d cases, %d mismatches%s" % (len(cases), total_mism, "" if S.model else " (python oracle only: no model)"))
 
-    # ---------------------------------------------------------------- (5) stress + acceptance
-    # (mode, kind, a, b, spin): stressbuf kind nprod npush spin | stressval kind n spin
+
+def stage_stress(ctx, S):
+    tb_unlocked, tv_unlocked, conflicts, lock_findings, table, model = S.tb_unlocked, S.tv_unlocked, S.conflicts, S.lock_findings, S.table, S.model
     q = not ctx.thorough()
     big = 20000 if q else 100000
     tsan_cfg = [("stressbuf", "pod", 1, big, 0), ("stressbuf", "pod", 2, big, 0), ("stressbuf", "str", 3, big // 2, 0),
@@ -481,12 +588,27 @@ def run(ctx):
         tsan_cfg += [("stressobs", "vec", 3, 6, 43691), ("stressvalburst", "vec", 0, 0, 0)]
     ctx.cov["boundary_sizes"] = bnd
     ctx.cov["targeted_search"] = {"TransactionalBuffer": tb_suspect, "TransactionalValue": tv_suspect}
-    jobs = [("tsan", h_tsan) + c for c in tsan_cfg] + [("asan", h_asan) + c for c in asan_cfg]
+    S.big = big
+    BUF_MODES = ("stressbuf", "stressobs", "seqbig")
+    jobs = []
+    skipped_parts = set()
+    for san, cfgs in (("tsan", tsan_cfg), ("asan", asan_cfg)):
+        for c in cfgs:
+            part = "buf" if c[0] in BUF_MODES else "val"
+            exe = S.exe.get((san, part))
+            if exe:
+                jobs.append((san, exe) + c)
+            else:
+                skipped_parts.add(part)
+    for part in sorted(skipped_parts):
+        ctx.broken.append("stress runs skipped for %s: no harness build" % ("TransactionalBuffer" if part == "buf" else "TransactionalValue"))
     tdir = os.path.join(ctx.build, "traces")
     os.makedirs(tdir, exist_ok=True)
 
     def one(job):
         san, exe, mode, kind, a, b, sp = job
+        if _time_left(ctx) < 15:
+            return None                                  # wall-clock budget used up
         name = "%s-%s-%s-%d-%d-%d" % (san, mode, kind, a, b, sp)
         tp = os.path.join(tdir, name + ".trace")
         try:
@@ -503,9 +625,9 @@ def run(ctx):
             return [mode, kind, tp]                      # stressvalburst
         args = mkargs(a, b)
         t_start = time.time()
-        tmo = ctx.pick(150, 900)
+        tmo = max(15, min(ctx.pick(150, 900), _time_left(ctx)))
         rc, out, err = ctx.run_exe(exe, args, timeout=tmo)
-        if rc == 124:
+        if rc == 124 and _time_left(ctx) > 30:
             # timed out (a loaded machine, or a hang): once more, a quarter of the size (stress modes), three times the time
             if mode == "stressval":
                 a = max(1000, a // 4)
@@ -513,18 +635,23 @@ def run(ctx):
                 b = max(500, b // 4)
             args = mkargs(a, b)
             name += "-retry"
-            rc, out, err = ctx.run_exe(exe, args, timeout=3 * tmo)
+            rc, out, err = ctx.run_exe(exe, args, timeout=max(20, min(3 * tmo, _time_left(ctx))))
         verdict = None
-        if os.path.exists(tp):
+        if model and os.path.exists(tp):
             # (deep non-tail recursion of the extracted tagN on long programs: lift the stack limit)
             mrc, mout, merr = ctx.run_exe("/bin/bash", ["-c", 'ulimit -s unlimited 2>/dev/null; exec "$0" "$1" < "$2"', model,
                                                         "traceval" if mode in ("stressval", "stressvalburst") else "tracebuf", tp],
-                                          timeout=ctx.pick(450, 1800))
+                                          timeout=max(30, min(ctx.pick(450, 1800), _time_left(ctx) + 30)))
             verdict = mout.strip() if mrc == 0 else "model-driver-failed rc=%d %s" % (mrc, merr[-300:])
         return dict(secs=round(time.time() - t_start, 1), name=name, san=san, args=args[:-1], cmd="%s %s" % (exe, " ".join(args)), rc=rc, out=out.strip(), err=err, verdict=verdict, trace=tp)
 
     with ThreadPoolExecutor(max_workers=3) as ex:
-        results = list(ex.map(one, jobs))
+        results = [r_ for r_ in ex.map(one, jobs) if r_ is not None]
+    S.results = results
+    n_skipped = len(jobs) - len(results)
+    if n_skipped:
+        ctx.cov["stress_runs_skipped_wall_clock_budget"] = n_skipped
+        ctx.log("%d stress runs skipped: wall-clock budget of the tier used up" % n_skipped)
     results.sort(key=lambda r_: 0 if r_["args"][0] == "seqbig" else 1)      # report the deterministic, exact runs first
     ctx.count(len(results))
     ctx.log("stress/boundary runs done: %d" % len(results))
@@ -557,7 +684,7 @@ def run(ctx):
                 race_reported = True
             continue
         if rc == 124:
-            ctx.broken.append("stress run %s did not terminate within the time limit, twice (hang, or an overloaded machine)" % res_["name"])
+            ctx.broken.append("stress run %s did not terminate within the time limit (hang, an overloaded machine, or the wall-clock budget of the tier)" % res_["name"])
             continue
         if rc != 0:
             if ("crash", "val" if "val" in res_["args"][0] else "buf") in seen_kinds:
@@ -578,7 +705,7 @@ def run(ctx):
             continue
         if not ok_line:
             ctx.broken.append("stress run %s produced no verdict: %r" % (res_["name"], out[:200]))
-        elif verdict is None or not verdict.startswith("accept"):
+        elif model and (verdict is None or not verdict.startswith("accept")):
             ctx.broken.append("history of %s passes the harness oracle but the extracted acceptance function says %r" % (res_["name"], verdict))
     ctx.cov["stress_runs"] = stress_cov
     if lock_findings and not race_reported and not ctx.violations:
@@ -588,12 +715,25 @@ def run(ctx):
     for res_ in [r_ for r_ in results if r_["args"][0] == "stressbuf"][:1] + [r_ for r_ in results if r_["args"][0] == "stressval"][:1] + [r_ for r_ in results if r_["args"][0] == "stressobs"][:1]:
         ctx.sample({"stress": " ".join(res_["args"]), "sanitizer": res_["san"], "harness": res_["out"][:200], "model": res_["verdict"]})
 
-    ctx.cov["inventory"] = inventory(ctx, iface, h_asan, inv_dir)
+
+
+def stage_inventory(ctx, S):
+    exe = S.exe.get(("asan", "buf")) if S.exe.get(("asan", "buf")) == S.exe.get(("asan", "val")) else None
+    if exe is None:
+        ctx.broken.append("inventory: no full harness build in this run - execution counts and special-member facts are incomplete")
+        exe = S.exe.get(("asan", "buf")) or S.exe.get(("asan", "val"))
+    if exe is None or S.inv_dir is None:
+        return
+    ctx.cov["inventory"] = inventory(ctx, S.iface, exe, S.inv_dir)
     for b_ in ctx.broken:
         if b_.startswith("inventory:"):
             ctx.log(b_)
-    if sorted(COVER) != sorted(expected):
+    if sorted(COVER) != sorted(S.expected):
         ctx.broken.append("inventory: COVER (props/C12/check.py) and Model.expected_members (coq/C12/Model.v) list different declarations")
+
+
+def stage_meta(ctx, S):
+    results, big = S.results, S.big
     ctx.rule = ("sequential: random histories (<=60 ops, 1-8 producers; TransactionalValue <=40 ops) and all histories up to length %d over a 5/4-op "
                 "alphabet, each on trivially-copyable, std::string and std::vector<int> payloads, model vs real code; non-trivial = two non-empty "
                 "batches or a batch with >=2 elements / both update() results seen.  stress: %d multi-threaded runs (1-8 producers x up to %d pushes of "
@@ -612,5 +752,30 @@ def run(ctx):
                         "the C++ memory model is not formalised: 'no data race' is the lockset discipline (Coq, reflective) plus ThreadSanitizer on the stress runs",
                         "interleaving (sequentially consistent) semantics at statement granularity for the TransactionalValue model; "
                         "TransactionalBuffer methods are single atomic steps, justified by tbuf_methods_atomic on the regenerated table"]
-    if ctx.thorough():
-        ctx.coq_thorough_chk(["C12.Properties", "C12.PropertiesTVal", "C12.LocksetProp"])
+
+
+def run(ctx):
+    # wall-clock budget of the whole run: no tree may push the quick tier beyond about 4 minutes
+    ctx.deadline = ctx.t0 + ctx.pick(200, 3000)
+    S = _S()
+    try:
+        _stage(ctx, "lock-table/member-list extraction", stage_table, S)
+        _stage(ctx, "Coq build", stage_coq, S)
+        _stage(ctx, "model and harness builds", stage_build, S)
+        if S.exe:
+            _stage(ctx, "sequential differential", stage_seq, S)
+            _stage(ctx, "stress and boundary runs", stage_stress, S)
+            _stage(ctx, "inventory", stage_inventory, S)
+        else:
+            ctx.broken.append("no harness could be built against this tree (not even one class at a time): no run of the real code")
+        if S.lock_findings and not ctx.violations and not any("lock discipline" in (v.get("what") or "") for v in ctx.violations):
+            ctx.violation("lock discipline / member list of the documented usage is broken: " + S.lock_findings[0],
+                          {"findings": S.lock_findings, "lock_table": S.table,
+                           "note": "no ThreadSanitizer report and no bad history were obtained in this run"}, found_input=False)
+        _stage(ctx, "evidence metadata", stage_meta, S)
+        if ctx.thorough():
+            _stage(ctx, "coqchk", lambda c: c.coq_thorough_chk(["C12.Properties", "C12.PropertiesTVal", "C12.LocksetProp"]))
+    except BaseException as ex:                                        # noqa: BLE001  (bin/vcheck calls ctx.finish() next: evidence is always written)
+        if isinstance(ex, (KeyboardInterrupt, SystemExit)):
+            raise
+        ctx.broken.append("check.py raised %r outside a stage" % (ex,))
